@@ -40,6 +40,13 @@ type Ctx struct {
 
 type prunedSignal struct{}
 
+// IsPruned tells whether a recovered panic value is the explorer's own "cut this execution" signal
+// (harness code that recovers panics must re-panic it).
+func IsPruned(p interface{}) bool {
+	_, ok := p.(prunedSignal)
+	return ok
+}
+
 func labHash(n int, label string) uint32 {
 	h := fnv.New32a()
 	fmt.Fprintf(h, "%d|%s", n, label)
